@@ -47,6 +47,20 @@ def pyStr : Scalar → Str
   | .none => "None".toList
   | .str s => s
 
+def decComps (j : Json) : Except String Comps := do
+  (← j.getArr?).toList.mapM decStr
+
+def encComps (p : Comps) : Json := Json.arr (p.map str).toArray
+
+def decCounter (j : Json) : Except String Counter :=
+  match j.getObjVal? "start" with
+  | .ok (Json.num n) => pure (if n.mantissa < 0 then none else some n.mantissa.toNat)
+  | _ => pure none
+
+def encCounter : Counter → Json
+  | none => Json.num (Lean.JsonNumber.fromInt (-1))
+  | some n => Json.num n
+
 def decFlavor (j : Json) : Except String Flavor := do
   match j.getObjVal? "fl" with
   | .ok v => match ← v.getStr? with
@@ -96,6 +110,49 @@ def handle (j : Json) : Except String Json := do
     match ← decVal (← j.getObjVal? "v") with
     | .leaf x => pure (str (formatScalar fl x))
     | _ => throw "format_value: scalar expected"
+  | "relpath" =>
+    pure (encComps (relPath (← decComps (← j.getObjVal? "from")) (← decComps (← j.getObjVal? "to"))))
+  | "joinnorm" =>
+    pure (encComps (joinNorm (← decComps (← j.getObjVal? "from")) (← decComps (← j.getObjVal? "rel"))))
+  | "commonroot" =>
+    let ps ← (← (← j.getObjVal? "paths").getArr?).toList.mapM decComps
+    pure (encComps (commonRoot ps))
+  | "targetname" =>
+    let optStr (k : String) : Except String (Option Str) :=
+      match j.getObjVal? k with
+      | .ok Json.null => pure none
+      | .ok v => do pure (some (← decStr v))
+      | .error _ => pure none
+    let scope ← (← (← j.getObjVal? "scope").getArr?).toList.mapM decStr
+    pure (str (targetName (← decStr (← j.getObjVal? "name")) (← optStr "prefix") scope (← optStr "output")))
+  | "includeline" =>
+    match includeLine (← decStr (← j.getObjVal? "name")) with
+    | some l => pure (str l)
+    | none => pure (Json.str "unsupported")
+  | "parseinclude" =>
+    match parseIncludeLine (← decStr (← j.getObjVal? "line")) with
+    | some l => pure (Json.mkObj [("name", str l)])
+    | none => pure (Json.str "none")
+  | "alloc" =>
+    let c : Counter := match j.getObjVal? "start" with
+      | .ok (Json.num n) => if n.mantissa < 0 then none else some n.mantissa.toNat
+      | _ => none
+    pure (Json.arr ((alloc Gen.counterLimit (← (← j.getObjVal? "n").getNat?) c).map fun (i : Nat) => Json.num i).toArray)
+  | "fmt_plain" =>
+    pure (str (fmtPlain (← decFlavor j) (← decEntries (← j.getObjVal? "e"))))
+  | "fmt_sd" =>
+    match fmtSD (← decFlavor j) (← decSD (← j.getObjVal? "sd")) with
+    | some t => pure (str t)
+    | none => pure (Json.mkObj [("perr", Json.str "unsupported")])
+  | "parse_native" =>
+    let comments := match j.getObjVal? "comments" with | .ok (Json.bool b) => b | _ => true
+    let dir ← match j.getObjVal? "dir" with | .ok v => decStr v | .error _ => pure []
+    let c ← decCounter j
+    match parseNative comments dir c (← decStr (← j.getObjVal? "text")) with
+    | .ok (sd, c') => pure (Json.mkObj [("sd", encSD sd), ("counter", encCounter c')])
+    | .error e => pure (Json.mkObj [("perr", Json.str (match e with | .unsupported => "unsupported" | .malformed => "malformed" | .tooDeep => "tooDeep"))])
+  | "tokenize" =>
+    pure (Json.arr ((levels 0 (tokenize (← decStr (← j.getObjVal? "text")))).map fun t => Json.arr #[Json.num (Lean.JsonNumber.fromInt t.1), str t.2]).toArray)
   | _ => throw s!"unknown op {op}"
 
 end DictIO.Ops
